@@ -31,7 +31,7 @@ class Bench:
         if self.extra_fire is not None and self.extra_fire(act):
             return
         t = act["t"]
-        self.rec.emit(ev="creq", t=t)
+        self.rec.emit(ev="creq", t=t, kind="scope" if act["c"] == "cancel" else "native")
         if act["c"] == "cancel":
             self.scopes[t].cancel()
         elif act["c"] == "native":
